@@ -4,7 +4,7 @@
    interleaving of groups, re-opened sections, duplicate keys, empty sides.
    Proofs are in MergeFacts.v. *)
 From Coq Require Import String Lia List.
-From Econf Require Import Bytes BytesFacts MergeSpec MergeFacts.
+From Econf Require Import Bytes BytesFacts Scenario MergeModel MergeSpec MergeFacts StoreFacts.
 Local Open Scope N_scope.
 
 (* the visible value of every (section, key) of the result: the override's
@@ -91,6 +91,27 @@ Print Assumptions C03_empty_override.
 Theorem C03_empty_base : forall o g, proj' (merge_entries [] o) g = proj' o g.
 Proof. intros o g. now apply merge_new_section. Qed.
 Print Assumptions C03_empty_base.
+
+(* inside a history (StoreFacts.v): a merge's result and return code are a
+   function of its two argument objects only - whatever else the store holds
+   and whatever calls, earlier merges with the same override included, produced
+   it; in particular the same override merged onto a second base gives what
+   that merge alone gives *)
+Theorem C03_history_independent : forall s1 s2 dst a b ka kb,
+  sget s1 a = Some ka -> sget s1 b = Some kb ->
+  sget s2 a = Some ka -> sget s2 b = Some kb ->
+  snd (step s1 (CMerge dst a b)) = snd (step s2 (CMerge dst a b)) /\
+  sget (fst (step s1 (CMerge dst a b))) dst = Some (merge_model ka kb) /\
+  sget (fst (step s2 (CMerge dst a b))) dst = Some (merge_model ka kb).
+Proof. exact merge_history_independent. Qed.
+Print Assumptions C03_history_independent.
+Theorem C03_same_override_twice : forall s d1 d2 b1 b2 o k1 k2 ko,
+  sget s b1 = Some k1 -> sget s b2 = Some k2 -> sget s o = Some ko ->
+  d1 <> b2 -> d1 <> o ->
+  sget (fst (step (fst (step s (CMerge d1 b1 o))) (CMerge d2 b2 o))) d2 = Some (merge_model k2 ko) /\
+  sget (fst (step s (CMerge d2 b2 o))) d2 = Some (merge_model k2 ko).
+Proof. exact merge_same_override_twice. Qed.
+Print Assumptions C03_same_override_twice.
 
 (* non-vacuity: a base that re-opens a section, an override with a duplicate
    key, a new key, a new section and a NULL value *)
